@@ -49,7 +49,10 @@ P = {'id': 'C11',
               'vec_external_sort_sorts',
               'sort_bytes_unfixed_depth_unbounded',
               'sort_bytes_depth_bounded',
-              'sort_bytes_fix_keeps_result'],
+              'sort_bytes_fix_keeps_result',
+              'quicksort_sorts',
+              'mergesort_sorts',
+              'co_full_sort_sorts'],
  'trusted': ['modelled (M+S): src/algorithms/radix_sort.rs RadixSort::sort_u32 / sort_u64 incl. the chunk + merge paths (par_chunks_mut / chunks with the '
              'chunk size from the thread count, MultiWayMerge::merge dispatch), sort_u32_sequential / sort_u64_sequential (counts array, exclusive prefix '
              'sums, scatter into a zeroed buffer), counting_sort_u32, sort_bytes / sort_bytes_msd, KeyValueRadixSort::sort_by_key (per-key position queues); '
@@ -59,7 +62,7 @@ P = {'id': 'C11',
              'MultiWayMerge::merge / merge_heap / merge_tournament, MergeOperations::merge_two / merge_in_place, SimdOperations::merge_multiple_sorted (merge '
              'tree); src/algorithms/external_sort.rs generate_runs + merge_runs (run ids carried in the heap entries as in the code; the number of runs is '
              'compared with stats().runs_generated), Vec::external_sort_with_config; src/algorithms/cache_oblivious.rs cache_oblivious_sort / '
-             'calculate_funnel_width / funnel_sort_recursive / cache_oblivious_merge; src/algorithms/set_ops.rs all two-pointer and binary-search variants, '
+             'calculate_funnel_width / funnel_sort_recursive / cache_oblivious_merge, sort / select_strategy / cache_aware_sort / hybrid_sort / cache_aware_quicksort (the slice during the Lomuto loop is kept as three segments) / cache_aware_mergesort; src/algorithms/set_ops.rs all two-pointer and binary-search variants, '
              'set_unique; src/algorithms/set_operations.rs bit-mask k-way intersection and union',
              'parameters of the theorems (not modelled, quantified over): slice::sort_unstable of the standard library (tim-sort strategy, the "merge" of the '
              'parallel LSD path, Vec::external_sort below the buffer size) - any function returning the sorted permutation; the size of the rayon pool - any '
@@ -67,9 +70,9 @@ P = {'id': 'C11',
              'models of code that is NOT in the pinned tree (stated as such): the LSD loop that skips constant-digit passes, merge_runs in passes of '
              'merge_ways runs, the MSD early return on depth >= max_bytes - each with the theorem that says what such a change must compute and a refutation '
              'of the wrong variant',
-             'spec-only cells (direct oracle + the verified checker is_sorted_perm evaluated in Coq on the implementation output): CacheObliviousSort::sort '
-             'with its strategy selection and the cache-aware variants (quicksort / merge sort / SIMD insertion sort), the custom-comparator loser tree, '
-             'ReplaceSelectSort::with_comparator; inside modelled cells: LSD passes with radix_bits > 8 and inputs above the per-op size limit (90-400 '
+             'spec-only cells (direct oracle + the verified checker is_sorted_perm evaluated in Coq on the implementation output): the custom-comparator '
+             'loser tree, ReplaceSelectSort::with_comparator, the two largest configurations (default CacheObliviousSort on 5 000 / 1.1 M elements, sort_bytes with a '
+             '40-300 KB common prefix: modelled mechanisms, inputs too large for Coq); inside modelled cells: LSD passes with radix_bits > 8 and inputs above the per-op size limit (90-400 '
              'elements)',
              'not modelled: BinaryHeap tie-breaking among equal items (irrelevant for integers: equal items are indistinguishable), file I/O and bincode '
              'framing of the temporary runs, SIMD intrinsics (the SIMD digit counting is taken to compute the counts), prefetching, rayon scheduling (chunks '
@@ -90,7 +93,7 @@ P = {'id': 'C11',
                'sorted inputs; (5) a verified checker is_sorted_perm <-> Sorted /\\ Permutation, and uniqueness of the sorted permutation. All other entry '
                'points and configurations the property names are decided by a direct oracle on the real code (std sort, concatenate-and-sort, textbook '
                'two-pointer algorithms) and, for sort cells without a mechanism model, by evaluating the verified checker in Coq on the implementation output. '
-               'Extension (33 further theorems): (6) AdvancedRadixSort::msd_radix_sort as coded sorts RadixString (lexicographic byte order) and u32/u64 for '
+               'Extension (36 further theorems): (6) AdvancedRadixSort::msd_radix_sort as coded sorts RadixString (lexicographic byte order) and u32/u64 for '
                'every insertion threshold, RadixSort::sort_bytes likewise (after fix 50ae740: with the common-prefix skip its nesting depth is at most the number of strings, before it the length of the common prefix); (7) AdvancedRadixSort::sort - whichever strategy is forced or selected adaptively, '
                'every radix width, threshold and thread count - yields the sorted permutation for u32/u64, and for RadixString under the exact hypothesis that '
                'the sequential LSD path is not taken on strings with colliding 8-byte keys (refutation witness otherwise: the recorded finding); (8) '
@@ -99,9 +102,9 @@ P = {'id': 'C11',
                'over a constant digit is the identity, so a pass-skipping loop equals the coded loop, `break` is refuted; (10) the binary-search and adaptive '
                'multiset intersections equal the two-pointer ones on sorted inputs with duplicates; (11) multi-pass merging of runs with any fan-in equals the '
                'coded single pass (chunks_exact refuted); the funnel recursion of cache_oblivious_sort sorts for every threshold and cache geometry; (12) '
-               'KeyValueRadixSort::sort_by_key keeps every key with its value and is stable; the binary merge tree and the Vec external-sort wrapper sort.',
- 'level_note': 'Trusted: Coq kernel + vm_compute; hand-written model; harness generators and oracle. CacheObliviousSort::sort (strategy selection, cache-aware '
-               'quicksort / merge sort), the custom-comparator loser tree and the comparator variant of the external sort have no mechanism model (S-only); '
+               'KeyValueRadixSort::sort_by_key keeps every key with its value and is stable; the binary merge tree and the Vec external-sort wrapper sort; (13) CacheObliviousSort::sort - strategy selection from the cache hierarchy, insertion sort, Lomuto quicksort, merge sort, funnel sort - yields the sorted permutation for every hierarchy, element size and threshold.',
+ 'level_note': 'Trusted: Coq kernel + vm_compute; hand-written model; harness generators and oracle. The custom-comparator loser tree and the comparator '
+               'variant of the external sort have no mechanism model (S-only); '
                'slice::sort_unstable and the thread count are parameters of the theorems.',
  'technique': 'Coq proof by induction over passes with a stability invariant (sorted by the low k digits), array-scatter invariant with disjoint regions, '
               'selection-merge induction on fuel, nested induction for two-pointer algorithms; model/implementation differential check by vm_compute; '
@@ -113,4 +116,4 @@ P = {'id': 'C11',
                 'strategy dispatch, the chunk + merge parallel paths, insertion sort, counting sort, loser-tree / heap / two-way / tree merges, '
                 'replacement-selection external sort (single and multi pass), the funnel sort recursion, key-value pairing and the two-pointer and '
                 'binary-search set operations; verified sorted-permutation checker; differential oracle for everything else (k-way set operations are modelled '
-                'and correspondence-checked but have no theorem; CacheObliviousSort::sort beyond cache_oblivious_sort is oracle-only).'}
+                'and correspondence-checked but have no theorem).'}
